@@ -64,9 +64,11 @@ func (li *lineIndex) pos(off int) token.Position {
 	return token.Position{Line: lo, Column: off - li.starts[lo]}
 }
 
-func isWS(c byte) bool     { return c == ' ' || c == '\t' || c == '\r' || c == '\n' }
-func isLetter(c byte) bool { return c == '_' || c == '$' || (c >= 'a' && c <= 'z') || (c >= 'A' && c <= 'Z') }
-func isDigit(c byte) bool  { return c >= '0' && c <= '9' }
+func isWS(c byte) bool { return c == ' ' || c == '\t' || c == '\r' || c == '\n' }
+func isLetter(c byte) bool {
+	return c == '_' || c == '$' || (c >= 'a' && c <= 'z') || (c >= 'A' && c <= 'Z')
+}
+func isDigit(c byte) bool { return c >= '0' && c <= '9' }
 
 // skipTrivia consumes whitespace and // comments starting at i; reports whether a line break was crossed.
 func skipTrivia(src string, i int) (int, bool) {
@@ -393,7 +395,9 @@ func genBytes(r *rand.Rand, n int) string {
 func lexCase(t *fw.T, src string, label string) {
 	var fd *Finding
 	var ntok int
-	wit := func() map[string]any { return map[string]any{"input": src, "input_quoted": fmt.Sprintf("%q", clip(src, 400)), "workload": label} }
+	wit := func() map[string]any {
+		return map[string]any{"input": src, "input_quoted": fmt.Sprintf("%q", clip(src, 400)), "workload": label}
+	}
 	if !t.Guard("lex", wit, func() { fd, ntok, _ = LexCheck(src) }) {
 		return
 	}
@@ -459,6 +463,9 @@ func init() {
 				lexCase(t, rd.Src, "program")
 				checkAgainstTokenTable(t, rd)
 				t.Distinct(rd.Src)
+			}},
+			{Name: "native-fuzzing", Quick: 0, Thorough: 1, Run: func(t *fw.T) {
+				runNativeFuzz(t, "FuzzLex", 20000000, func(in string) *Finding { fd, _, _ := LexCheck(in); return fd })
 			}},
 			{Name: "stress-64k", Quick: 32, Thorough: 256, Run: func(t *fw.T) {
 				r := t.Rand()
